@@ -1100,6 +1100,8 @@ class Interp:
                 v = self.eval(a.value, frame, st)
                 if v.elts is not None:
                     args.extend(v.elts)
+                elif v.ty == 'dictvalues' and v.of is not None and v.of.kw and not v.of.open_kw and v.of.elem is not None and len(v.of.kw) <= 16:
+                    args.extend(v.of.kw.values())  # f(*d.values()) of a dict with known entries (insertion order)
                 else:
                     args.append(AV(star=True, elem=self.model.iter_item(self, st, v, a.value, None), src=v))
             else:
